@@ -27,7 +27,14 @@ import (
 	"verif.local/simgen"
 )
 
-const verifDir = "/verif"
+// verifDir is the directory the check script lives in (/verif, or a snapshot
+// of it when started through `vp run`).
+var verifDir = func() string {
+	if d := os.Getenv("VERIF_DIR"); d != "" {
+		return d
+	}
+	return "/verif"
+}()
 
 func goEnv() []string {
 	env := os.Environ()
